@@ -8,5 +8,5 @@ PROP = dict(
         level_text="Property-based differential test over physical encodings: one program, one value sequence, several readers; sequence or multiset equality chosen by program metadata.",
         level_note="Trusted: the ZSON reader/writer for the reference run (checked per case by reading the input back), the harness's order/determinism metadata. Not covered: CSV/JSON/Parquet/Arrows inputs (they do not preserve the values), GOMAXPROCS sweeps.",
         technique="property-based testing (rapid), differential oracle; per-value pinpointing of the leading filter when outputs differ",
-        tests=[dict(name="TestEncodingIndependence", quick=(8, 250), thorough=(16, 3000))],
+        tests=[dict(name="TestEncodingIndependence", quick=(8, 250), thorough=(16, 1500))],
 )
